@@ -88,12 +88,24 @@ def run(ctx):
     for i, c in enumerate(cases):
         inputs.append(("fam%d" % i, express.render(c["schema"])))
     inputs.append(("bounds", express.render(cases[0]["schema"], BOUNDS_HEAD, bounds_body)))
+    if not ctx.quick:
+        # the application-protocol schemas shipped in data/ (all four tools, every configuration of the plan)
+        import glob
+        from vf.common import REPO
+        for f in sorted(glob.glob(os.path.join(REPO, "data", "*", "*.exp"))):
+            inputs.append(("shipped_" + os.path.basename(f)[:-4], open(f, errors="replace").read()))
     tools = [("exp2cxx", os.path.join(bdir, "bin", "exp2cxx")), ("exp2python", os.path.join(bdir, "bin", "exp2python")),
              ("exppp", os.path.join(bdir, "bin", "exppp")), ("schema_scanner", scan)]
     jobs = []
+    BASE = {"aslr": "on", "cwd": "short", "path": "abs", "env": "small", "locale": "C", "heap": "default"}
+    FAR = {"aslr": "off", "cwd": "long/deeper/dir", "path": "dotted", "env": "big", "locale": "de_DE.UTF-8", "heap": "perturb"}
     for name, text in inputs:
         for tname, tbin in tools:
             for k, c in enumerate(cfgs):
+                # the big shipped schemas run under the base configuration, its one-coordinate neighbours and the
+                # all-different one (the plan of the quick tier), not under the full product
+                if name.startswith("shipped_") and not (c == FAR or sum(1 for x in BASE if c[x] != BASE[x]) <= 1):
+                    continue
                 jobs.append((name, text, tname, tbin, k, c))
 
     def one(j):
@@ -123,7 +135,7 @@ def run(ctx):
         if c["aslr"] == "off":
             cmd = ["setarch", os.uname().machine, "-R"] + cmd
         try:
-            p = subprocess.run(cmd, cwd=cwd, env=env, stdout=subprocess.PIPE, stderr=subprocess.PIPE, timeout=120)
+            p = subprocess.run(cmd, cwd=cwd, env=env, stdout=subprocess.PIPE, stderr=subprocess.PIPE, timeout=600)
             rc = p.returncode
         except subprocess.TimeoutExpired:
             rc = 124
